@@ -19,6 +19,15 @@ const (
 	verifActClose
 )
 
+// Any caller-chosen rate-limiting configuration.
+func verifAnyRateLimiting() (r QueryRateLimiting) {
+	r.NotFirst = verifNondetBool()
+	r.NotAny = verifNondetBool()
+	r.WaitOnRetries = verifNondetBool()
+	r.NoWaitFirst = verifNondetBool()
+	return
+}
+
 func verifC14Query(maxTries int, withFaults bool) {
 	v := verifStartServer(verifSrvOpt{noSecurity: true})
 	tries := verifChoice(1, maxTries)
@@ -98,8 +107,8 @@ func verifC14Query(maxTries int, withFaults bool) {
 		verifAssert(v.s.transactions.NumActive() == 0, "C14: no pending transaction is left behind (closed server)")
 		// after Close, a new query fails without sending anything
 		attempts := v.sock.attempts
-		q := verifStartQuery(v, context.Background(), dst, "ping", QueryInput{})
-		for i := 0; i < 3 && !q.done; i++ {
+		q := verifStartQuery(v, context.Background(), dst, "ping", QueryInput{RateLimiting: verifAnyRateLimiting(), NumTries: verifChoice(1, 2)})
+		for i := 0; i < 4 && !q.done; i++ {
 			verifFireTimers()
 			verifQuiesce()
 		}
